@@ -395,6 +395,7 @@ func run(c *runner.Ctx) {
 			}
 		}
 	}
+	recursive(c)
 	// F3: three fields, lists up to length 1
 	c.Space("three-fields")
 	for k0 := 0; k0 < 2; k0++ {
@@ -414,6 +415,71 @@ func run(c *runner.Ctx) {
 						}
 					}
 				}
+			}
+		}
+	}
+}
+
+// Tree is a self-referential type: per-call rules given without a target belong to the outermost node only, every
+// node below it is judged by its tags.
+type Tree struct {
+	Sort     int     `valid:"to=1~9"`
+	Name     string  `valid:"required|need-name"`
+	Children []*Tree `valid:"exist"`
+	Next     *Tree   `valid:"exist"`
+	Memo     string
+}
+
+func recursive(c *runner.Ctx) {
+	c.Space("self-referential-type-with-outer-rules")
+	leaf := func(sort int, name string) *Tree { return &Tree{Sort: sort, Name: name} }
+	trees := []func() *Tree{
+		func() *Tree { return leaf(0, "") },
+		func() *Tree { return &Tree{Sort: 12, Name: "r", Children: []*Tree{leaf(12, ""), leaf(3, "ok"), leaf(0, "")}} },
+		func() *Tree { return &Tree{Sort: 3, Name: "", Next: &Tree{Sort: 0, Name: "", Next: leaf(44, "")}} },
+		func() *Tree {
+			return &Tree{Sort: 5, Name: "root", Children: []*Tree{{Sort: 10, Name: "", Children: []*Tree{leaf(11, "x"), leaf(0, "")}}}, Next: leaf(10, "")}
+		},
+	}
+	rms := []map[string]string{nil, {"Sort": "required|outer-sort"}, {"Name": "to=2~3|outer-name"}, {"Sort": "eq=5|outer-eq", "Memo": "required|outer-memo"}, {"Children": "required", "Next": "le=1"},
+		{"Sort": "to=10~20"}}
+	for ti, mk := range trees {
+		for ri, rm := range rms {
+			for top := 0; top < 3; top++ {
+				if !c.Take() {
+					continue
+				}
+				var src interface{} = mk()
+				switch top {
+				case 1:
+					src = []*Tree{mk(), mk()}
+				case 2:
+					src = map[string]*Tree{"a": mk()}
+				}
+				if top != 0 && rm != nil {
+					continue // what an untargeted rule set means for a collection of outermost objects is not stated
+				}
+				o := walk.Opts{Unscoped: rm}
+				var err error
+				pan, msg, site := runner.Guard(func() {
+					if rm == nil {
+						err = valid.Struct(src)
+					} else {
+						err = valid.Struct(src, valid.RM(rm))
+					}
+				})
+				exp := walk.Struct(src, o)
+				c.Done(len(exp.Fields) >= 2, 1)
+				det := func() map[string]interface{} {
+					return map[string]interface{}{"tree": ti, "outer_rules": rm, "rules_index": ri, "top": []string{"*Tree", "[]*Tree", "map[string]*Tree"}[top]}
+				}
+				if pan {
+					d := det()
+					d["panic"] = msg
+					c.Violation("panic@"+site, d)
+					continue
+				}
+				compare(c, exp, err, det, top == 2)
 			}
 		}
 	}
